@@ -249,4 +249,114 @@ theorem sv_idle_grant {T maxC dms now b : Int} {cell : Option (Int × Int)} (hT 
       split <;> omega
     simp only [this, if_false]
 
+/-! ## throttling: the one-value leaky bucket -/
+
+/-- the code's interval is the floor of `b·D·1000/T` whole ms (inside the int64 / 2^53 range) -/
+theorem interval_floor {T D b : Int} (hT : 0 < T) (hD : 0 ≤ D) (hb : 0 ≤ b) (hfit : b * D * 1000 < 9007199254740992) :
+    interval T D b = b * D * 1000 / T := by
+  unfold interval
+  have h0 : 0 ≤ b * D := mul_nonneg hb hD
+  have hw1 : w (b * D) = b * D := w_id (by unfold two63; omega) (by unfold two63; omega)
+  rw [hw1]
+  have hw2 : w (b * D * 1000) = b * D * 1000 := w_id (by unfold two63; omega) (by unfold two63; omega)
+  rw [hw2, Int.tdiv_eq_ediv_of_nonneg (by omega)]
+  have h1 : 0 ≤ b * D * 1000 / T := Int.ediv_nonneg (by omega) (le_of_lt hT)
+  have h2 : b * D * 1000 / T ≤ b * D * 1000 := Int.ediv_le_self _ (by omega)
+  exact f64int_id h1 (by omega)
+
+/-- … which is the real-valued spacing exactly when the threshold divides `b·D·1000` -/
+theorem interval_real_of_dvd {T D b : Int} (hT : 0 < T) (hD : 0 ≤ D) (hb : 0 ≤ b)
+    (hfit : b * D * 1000 < 9007199254740992) (hdvd : T ∣ b * D * 1000) :
+    interval T D b * T = b * D * 1000 := by
+  rw [interval_floor hT hD hb hfit]
+  exact Int.ediv_mul_cancel hdvd
+
+/-- scheduled-time invariant: the cell is the scheduled pass time of the latest admitted request -/
+def Paced (T D : Int) : Option Int → List (Req × Res) → Prop
+  | _, [] => True
+  | last, p :: l =>
+    match p.2 with
+    | .pass => (∀ s, last = some s → interval T D p.1.b ≤ p.1.t - s) ∧ Paced T D (some p.1.t) l
+    | .wait ms => (∀ s, last = some s → interval T D p.1.b ≤ p.1.t + ms - s) ∧ Paced T D (some (p.1.t + ms)) l
+    | _ => Paced T D last l
+
+/-- every requested wait is positive and shorter than the maximum queueing time -/
+def WaitsBelow (mq : Int) : List (Req × Res) → Prop
+  | [] => True
+  | p :: l => (∀ ms, p.2 = .wait ms → 0 < ms ∧ ms < mq) ∧ WaitsBelow mq l
+
+/-- one step of the throttling machine under the no-wrap guard -/
+theorem svThrottle_step {T iv mq now H : Int} {cell : Option Int} (hmq : 0 ≤ mq) (hiv : 0 ≤ iv)
+    (hnow : 0 ≤ now ∧ now ≤ H) (hfit : H + mq + iv < two63)
+    (hc : ∀ s, cell = some s → 0 ≤ s ∧ s ≤ H + mq) :
+    (∀ s, (svThrottle T iv mq cell now).1 = some s → 0 ≤ s ∧ s ≤ H + mq) ∧
+    (match (svThrottle T iv mq cell now).2 with
+      | .pass => (∀ s, cell = some s → iv ≤ now - s) ∧ (svThrottle T iv mq cell now).1 = some now
+      | .wait ms => 0 < ms ∧ ms < mq ∧ (∀ s, cell = some s → iv ≤ now + ms - s) ∧
+          (svThrottle T iv mq cell now).1 = some (now + ms)
+      | _ => (svThrottle T iv mq cell now).1 = cell) := by
+  unfold svThrottle
+  by_cases h1 : T ≤ 0
+  · simp only [h1, if_true]; exact ⟨hc, trivial⟩
+  simp only [h1, if_false]
+  cases cell with
+  | none =>
+    dsimp only
+    refine ⟨?_, ?_, rfl⟩
+    · intro s hs; cases hs; omega
+    · intro s hs; cases hs
+  | some last =>
+    obtain ⟨l0, l1⟩ := hc last rfl
+    dsimp only
+    have hw1 : w (last + iv) = last + iv := w_id (by unfold two63; omega) (by omega)
+    have hw2 : w (last + iv - now) = last + iv - now := w_id (by unfold two63 at *; omega) (by omega)
+    rw [hw1, hw2]
+    by_cases h2 : last + iv ≤ now ∨ last + iv - now < mq
+    · simp only [h2, if_true]
+      by_cases h3 : last + iv - now > 0
+      · simp only [h3, if_true]
+        refine ⟨?_, ?_, ?_, ?_, ?_⟩
+        all_goals first | trivial | omega | (intro s hs; cases hs; omega) | (congr 1; omega) | skip
+      · simp only [h3, if_false]
+        refine ⟨?_, ?_, ?_⟩
+        all_goals first | trivial | omega | (intro s hs; cases hs; omega) | skip
+    · simp only [h2, if_false]
+      exact ⟨fun s hs => by cases hs; exact ⟨l0, l1⟩, trivial⟩
+
+theorem sv_pacing_aux {T D mq H : Int} (hmq : 0 ≤ mq) :
+    ∀ (qs : List Req) (cell : Option Int), (∀ s, cell = some s → 0 ≤ s ∧ s ≤ H + mq) →
+      (∀ q ∈ qs, 0 ≤ q.t ∧ q.t ≤ H ∧ 0 ≤ interval T D q.b ∧ H + mq + interval T D q.b < two63) →
+      Paced T D cell (svRunThrottle T D mq cell qs) ∧ WaitsBelow mq (svRunThrottle T D mq cell qs) := by
+  intro qs
+  induction qs with
+  | nil => intro _ _ _; exact ⟨trivial, trivial⟩
+  | cons q qs ih =>
+    intro cell hc hall
+    obtain ⟨q1, q2, q3, q4⟩ := hall q List.mem_cons_self
+    have hrest := fun x hx => hall x (List.mem_cons_of_mem _ hx)
+    obtain ⟨s1, s2⟩ := svThrottle_step (T := T) hmq q3 ⟨q1, q2⟩ q4 hc
+    have ih' := ih _ s1 hrest
+    simp only [svRunThrottle, Paced, WaitsBelow]
+    cases hres : (svThrottle T (interval T D q.b) mq cell q.t).2 with
+    | pass =>
+      rw [hres] at s2
+      simp only [reduceCtorEq, false_implies, implies_true, true_and]
+      rw [s2.2] at ih' ⊢
+      exact ⟨⟨s2.1, ih'.1⟩, ih'.2⟩
+    | wait ms =>
+      rw [hres] at s2
+      simp only [Res.wait.injEq, forall_eq']
+      rw [s2.2.2.2] at ih' ⊢
+      exact ⟨⟨s2.2.2.1, ih'.1⟩, ⟨s2.1, s2.2.1⟩, ih'.2⟩
+    | block =>
+      rw [hres] at s2
+      simp only [reduceCtorEq, false_implies, implies_true, true_and]
+      rw [s2] at ih' ⊢
+      exact ih'
+    | spin =>
+      rw [hres] at s2
+      simp only [reduceCtorEq, false_implies, implies_true, true_and]
+      rw [s2] at ih' ⊢
+      exact ih'
+
 end Sentinel.Hot
